@@ -146,9 +146,11 @@ def replay_metrics(inp):
         bad["top"] = [top, asc * s, tol]
     if abs(bottom - (asc - F) * s) > tol:
         bad["bottom"] = [bottom, (asc - F) * s, tol]
-    A = max(width, round(F * w / h))
+    A = CG._advance_width(Rect(0, 0, w, h), cfg)  # the hmtx advance ColorGlyph.create assigns (real code)
+    if fmt == "cbdt":
+        adv_px = BT._cbdt_bitmap_data(cfg, m, png).metrics.Advance  # what is stored, not what was computed on the way
     if abs(adv_px - A * s) > 1 + A * abs(h / F - s) + h / (2 * F) + 1e-9:
-        bad["advance"] = [adv_px, A * s]
+        bad["advance"] = {"pixel advance": adv_px, "font advance (hmtx)": A, "scaled to ppem": A * s}
     if mode in ("square", "proportional") and m.x_offset <= 127 and abs(2 * m.x_offset - (adv_px - w)) > (4 if m.x_offset == 127 else 2):
         bad["x_offset"] = [m.x_offset, "expected about", (adv_px - w) / 2, "advance_px", adv_px, "bitmap width", w]
     if h > 255 or not (-128 <= m.y_offset <= 127):
